@@ -219,7 +219,41 @@ def r16_6(ctx: Ctx) -> None:
     ctx.check(bool(pops) and bool(dd), "R16.6", cp, cp.node, "canonical_path resolves '..' by popping", "canonical_path no longer resolves '..' components", construct="canonical_path pops")
 
 
+def r16_7(ctx: Ctx) -> None:
+    """(a) the sanitiser removes ALL leading separators (lstrip / a quantified regex), not a fixed number of characters: '//tmp/x' and
+    '///tmp/x' are absolute source spellings too and must be stored as 'tmp/x', not refused;
+    (b) _make_file_info falls back to the raw source path only when NO arcname was given (`is None`), not when the sanitised name is
+    empty ('' for the source '/'), which would store the unsanitised absolute path."""
+    f = shared.szf(ctx, "_sanitize_archive_arcname")
+    strips = []
+    for n in walk(f.node):
+        if not isinstance(n, ast.Assign) or not isinstance(n.targets[0], ast.Name):
+            continue
+        facts = q.facts_at(f, n)
+        if not any(pol and isinstance(cd, ast.Call) and attr_tail(cd) == "startswith" and any(isinstance(x, ast.Constant) and x.value == "/" for x in ast.walk(cd)) for cd, pol in facts):
+            continue
+        strips.append(n)
+        v = n.value
+        all_of_them = (isinstance(v, ast.Call) and attr_tail(v) == "lstrip" and v.args and any(isinstance(x, ast.Constant) and isinstance(x.value, str) and "/" in x.value for x in ast.walk(v.args[0]))) \
+            or (isinstance(v, ast.Call) and dotted(v.func) in ("re.sub",) and v.args and isinstance(v.args[0], ast.Constant) and any(ch in str(v.args[0].value) for ch in "+*"))
+        ctx.check(bool(all_of_them), "R16.7", f, n, "leading separators are stripped completely",
+                  f"`{norm(n)}` removes a fixed number of leading characters where all leading separators must go: an absolute source spelled with two or more "
+                  "slashes ('//tmp/x') stays absolute and write()/writeall() refuse it instead of storing 'tmp/x'", construct=f"strip {norm(n.value)[:40]}")
+    ctx.floor("R16.7", len(strips), 1, "separator-stripping assignments in the arcname sanitiser")
+    g = shared.szf(ctx, "_make_file_info")
+    fallbacks = [n for n in walk(g.node) if isinstance(n, ast.Assign) and isinstance(n.targets[0], ast.Subscript) and isinstance(n.targets[0].slice, ast.Constant)
+                 and n.targets[0].slice.value == "filename" and not any(isinstance(x, ast.Name) and x.id == "arcname" for x in ast.walk(n.value))]
+    ctx.floor("R16.7", len(fallbacks), 1, "fallback to the source path in _make_file_info")
+    for n in fallbacks:
+        facts = q.facts_at(g, n)
+        by_none = any((t := q.is_none_test(cd)) is not None and isinstance(t[0], ast.Name) and t[0].id == "arcname" and t[1] == pol for cd, pol in facts)
+        ctx.check(by_none, "R16.7", g, n, "the raw source path is used only when arcname is None",
+                  "_make_file_info falls back to the unsanitised source path on a test other than `arcname is None` (e.g. truthiness): a sanitised name that came out "
+                  "empty (source '/' or 'c:') is replaced by the absolute source path and stored as such", construct="filename fallback guard")
+
+
 def run(ctx: Ctx) -> None:
+    r16_7(ctx)
     r16_6(ctx)
     r16_1(ctx)
     r16_2(ctx)
